@@ -48,20 +48,32 @@ def reroot_job(mirpath, D, idx_lo, idx_hi):
     return res
 
 def shannon_prob(expr, target, accepts):
-    """P(expr == target) over independent accept bits (list of (Bool, p)); result: z3 Real term over the weights"""
-    bits = [(b, p) for (b, p) in accepts if is_sym(b) and b.decl().name() in {d for d in _bool_names(expr)}]
-    if not is_sym(expr): return z3.RealVal(1 if expr == target else 0)
-    total = z3.RealVal(0)
-    for asg in itertools.product([True, False], repeat=len(bits)):
-        sub = [(b, z3.BoolVal(v)) for (b, _), v in zip(bits, asg)]
-        e = z3.simplify(z3.substitute(expr, *sub)) if sub else expr
-        pr = z3.RealVal(1)
-        for (b, p), v in zip(bits, asg): pr = pr * (p if v else (1 - p))
-        if z3.is_int_value(e):
-            if e.as_long() == target: total = total + pr
+    """P(expr == target) over independent accept bits (list of (Bool, p)); result: z3 Real term over the weights.
+    The merged draw handle is a nested if-then-else; each accept bit belongs to one merge, so the expectation is taken bit by bit
+    at the outermost ite whose condition mentions it (linear in the size of the term instead of 2^bits)."""
+    pmap = {}
+    for (b, p) in accepts:
+        if is_sym(b): pmap[b.decl().name()] = (b, p)
+    memo = {}
+    def bits_of(e): return {n for n in _bool_names(e) if n in pmap}
+    def prob(e):
+        if not is_sym(e): return z3.RealVal(1 if e == target else 0)
+        e = z3.simplify(e)
+        if z3.is_int_value(e): return z3.RealVal(1 if e.as_long() == target else 0)
+        key = e.get_id()
+        if key in memo: return memo[key]
+        if not (z3.is_app(e) and e.decl().kind() == z3.Z3_OP_ITE): raise ValueError('unexpected draw expression %s' % e)
+        c, a, b = e.arg(0), e.arg(1), e.arg(2)
+        cb = bits_of(c)
+        if not cb:
+            r = z3.If(c, prob(a), prob(b))
         else:
-            total = total + z3.If(e == target, pr, z3.RealVal(0))
-    return total
+            nm = sorted(cb)[0]; bit, p = pmap[nm]
+            et = z3.simplify(z3.substitute(e, (bit, z3.BoolVal(True)))); ef = z3.simplify(z3.substitute(e, (bit, z3.BoolVal(False))))
+            r = p * prob(et) + (1 - p) * prob(ef)
+        memo[key] = r
+        return r
+    return prob(expr)
 
 def _bool_names(e, acc=None):
     acc = set() if acc is None else acc
